@@ -17,6 +17,7 @@ package limits
 import (
 	"errors"
 	"math"
+	gopath "path"
 	"sort"
 	"strconv"
 	"strings"
@@ -198,6 +199,14 @@ func addPathLimit(pathLimit []httpserver.PathLimit, path string, limit int64) []
 	// Enforces preceding slash
 	if !strings.HasPrefix(path, "/") {
 		path = "/" + path
+	}
+	// Scopes are matched in their cleaned form (httpserver.Path.Matches);
+	// store them in that form too, so that "longest path first" orders
+	// them by what they match and not by how they were spelled
+	if cleaned := gopath.Clean(path); cleaned != "/" && strings.HasSuffix(path, "/") {
+		path = cleaned + "/"
+	} else {
+		path = cleaned
 	}
 
 	// Use the last value if there are duplicates
